@@ -433,8 +433,8 @@ impl super::MainState {
                     .iter()
                     .filter_map(|chname| {
                         let ch = state.channels.get(chname).unwrap();
-                        if !ch.modes.secret {
-                            // put channel only if not secret
+                        if !ch.modes.secret || ch.users.contains_key(user_nick) {
+                            // put channel only if not secret or if requester is on that channel
                             Some(WhoIsChannelStruct {
                                 prefix: Some(
                                     ch.users.get(&nick).unwrap().to_string(&conn_state.caps),
